@@ -50,7 +50,7 @@ def h_v1(ctx, charset, sepA, sepB, gap, nbody, lead, blanks):
         if i < 8:
             head = head + SEPS[sepB if i == odd else sepA]
         i += 1
-    leading = ctx.choice("lead", ["", "\r\n", "\n\n"]) if lead else ""
+    leading = ctx.choice("lead", ["", "\r\n", "\n\n", "\r\r", "  ", "\n \n"] if lead == "all" else ["", "\r\n"]) if lead else ""
     body = mk_body(ctx, codec, nbody)
     data = (leading + head + GAPS[gap]).encode("ascii") + body.encode(codec)
     ctx.observe("file", data)
@@ -69,7 +69,7 @@ def h_v1(ctx, charset, sepA, sepB, gap, nbody, lead, blanks):
 XML1 = {'"': '<?xml version="1.0" encoding="UTF-8" standalone="no"?>', "'": "<?xml version='1.0' encoding='UTF-8' standalone='no'?>"}
 
 
-def h_v2(ctx, q1, q2, br1, br2, nbody):
+def h_v2(ctx, q1, q2, br1, br2, nbody, lead=True):
     version = ctx.choice("version", ["200", "201", "202", "203", "210", "211", "220"] if nbody > 1 else ["200", "211", "220"])
     security = ctx.choice("security", ["NONE", "TYPE1"])
     old = ctx.str("old", 1, UIDCH)
@@ -78,7 +78,8 @@ def h_v2(ctx, q1, q2, br1, br2, nbody):
     decl = "<?OFX OFXHEADER=" + q + "200" + q + " VERSION=" + q + version + q + " SECURITY=" + q + security + q + \
            " OLDFILEUID=" + q + old + q + " NEWFILEUID=" + q + new + q + "?>"
     body = mk_body(ctx, "utf_8", nbody)
-    text_all = XML1[q1] + br1 + decl + br2 + body
+    leading = ctx.choice("lead", ["", "\r\n", "\n\n"]) if lead else ""
+    text_all = leading + XML1[q1] + br1 + decl + br2 + body
     data = text_all.encode("utf_8")
     ctx.observe("file", data)
     if q2 == "'" and ctx.known("C05-v2-single-quotes-refused"):
@@ -102,6 +103,8 @@ META = dict(
     models=["io.BytesIO (tell/readline/seek/read)", "bytes.decode / str.encode for ascii, latin_1, cp1252 (table read from the real codec), utf_8 (<= 3-byte sequences)",
             "re on OFXHeaderV1/V2.regex and XML_REGEX", "str.strip"],
     assumptions=["oracle = the harness's own knowledge of the fields and body it assembled"],
+    observations=["an OFXv2 file preceded by CR-only blank lines is refused (the XML declaration is then not at the start of the first line); "
+                  "the property lists leading blank lines for the v1 layout only, so this is not asserted"],
 )
 
 
@@ -124,7 +127,7 @@ def instances(tier, seed):
                 for g in gaps:
                     if sa == "NONE" and sb == "NONE" and g == "none":
                         pass
-                    mk(f"v1[{cs},{sa},{sb},{g}]", "v1", dict(charset=cs, sepA=sa, sepB=sb, gap=g, nbody=nb, lead=full or g == "none", blanks=full or sb == sa))
+                    mk(f"v1[{cs},{sa},{sb},{g}]", "v1", dict(charset=cs, sepA=sa, sepB=sb, gap=g, nbody=nb, lead=("all" if (full or (g == gaps[0] and sb == sa)) else False), blanks=full or (sb == sa and g != gaps[0])))
     for q1 in ('"', "'"):
         for q2 in ('"', "'"):
             for br1 in ("\r\n", "\n", ""):
